@@ -178,8 +178,8 @@ type Proc struct {
 	// RealToken: the process is the real binary; harness connections present
 	// this access token (minted with the secret of the fake discovery service)
 	RealToken string
-	locks   bool   // lock-order monitor on: the edges are collected into the workspace when the process is killed
-	ws      *Workspace
+	locks     bool // lock-order monitor on: the edges are collected into the workspace when the process is killed
+	ws        *Workspace
 }
 
 // LockEdge: some goroutine asked for lock class To while holding class From.
